@@ -220,10 +220,15 @@ class MultiEmbeddingTensor(_MultiTensor):
                 Note that if :obj:`dim=0`, it will return with the original
                 offset tensor.
         """
+        # Keep `values` two-dimensional so that the result can be indexed
+        # further along either dimension.
+        num_rows = 0 if dim == 0 else self.num_rows
+        width = 0 if dim == 1 else int(self.offset[-1])
         return MultiEmbeddingTensor(
-            num_rows=0 if dim == 0 else self.num_rows,
+            num_rows=num_rows,
             num_cols=0 if dim == 1 else self.num_cols,
-            values=torch.tensor([], device=self.device, dtype=self.dtype),
+            values=torch.empty((num_rows, width), device=self.device,
+                               dtype=self.dtype),
             offset=torch.tensor([0], device=self.device, dtype=torch.long)
             if dim == 1 else self.offset,
         )
